@@ -16,6 +16,9 @@ pub mod c04;
 pub mod c05;
 pub mod c06;
 pub mod c07;
+pub mod c08;
+pub mod c09;
+pub mod c16;
 pub mod c17;
 pub mod c19;
 pub mod c20;
@@ -25,9 +28,11 @@ pub mod c23;
 pub mod c24;
 pub mod c25;
 pub mod c26;
+pub mod c28;
 pub mod c35;
 pub mod c36;
 pub mod objgen;
+pub mod simrig;
 
 pub fn all() -> Vec<PropDef> {
     vec![
@@ -38,6 +43,9 @@ pub fn all() -> Vec<PropDef> {
         PropDef { id: "C05", run: c05::run, replay: c05::replay },
         PropDef { id: "C06", run: c06::run, replay: c06::replay },
         PropDef { id: "C07", run: c07::run, replay: c07::replay },
+        PropDef { id: "C08", run: c08::run, replay: c08::replay },
+        PropDef { id: "C09", run: c09::run, replay: c09::replay },
+        PropDef { id: "C16", run: c16::run, replay: c16::replay },
         PropDef { id: "C17", run: c17::run17, replay: c17::replay17 },
         PropDef { id: "C18", run: c17::run18, replay: c17::replay18 },
         PropDef { id: "C19", run: c19::run, replay: c19::replay },
@@ -48,6 +56,7 @@ pub fn all() -> Vec<PropDef> {
         PropDef { id: "C24", run: c24::run, replay: c24::replay },
         PropDef { id: "C25", run: c25::run, replay: c25::replay },
         PropDef { id: "C26", run: c26::run, replay: c26::replay },
+        PropDef { id: "C28", run: c28::run, replay: c28::replay },
         PropDef { id: "C35", run: c35::run, replay: c35::replay },
         PropDef { id: "C36", run: c36::run, replay: c36::replay },
     ]
